@@ -297,8 +297,8 @@ def run_tlc(module, cfg, wd, workers=8, timeout=900, simulate=None, extra=(), en
             if m:
                 depth = int(m.group(1))
             if line.startswith("Error: Invariant") or line.startswith("Error: Action property") or \
-               line.startswith("Error: Temporal properties were violated") or line.startswith("Error: Deadlock") or \
-               line.startswith("Error: Postcondition"):
+               line.startswith("Error: Temporal propert") or line.startswith("Error: Deadlock") or \
+               line.startswith("Error: Postcondition") or line.startswith("Error: The invariant of"):
                 viol = line
             m = re.match(r"^Progress.*?(\d[\d,]*) states generated.*?(\d[\d,]*) distinct", line)
             if m and not dist:
@@ -424,8 +424,9 @@ class Result:
             "wall_s": round(wall, 2),
             "violations": len(self.violations),
         }
-        os.makedirs(os.path.join(VERIF, "evidence"), exist_ok=True)
-        with open(os.path.join(VERIF, "evidence", "%s.json" % self.pid), "w") as f:
+        evdir = os.environ.get("VERIF_EVIDENCE", os.path.join(VERIF, "evidence"))   # bin/selftest redirects runs on scratch trees
+        os.makedirs(evdir, exist_ok=True)
+        with open(os.path.join(evdir, "%s.json" % self.pid), "w") as f:
             json.dump(ev, f, indent=1, sort_keys=True, ensure_ascii=False)
             f.write("\n")
         for k, (fd, n) in sorted(self.known.items()):
